@@ -86,6 +86,8 @@ FORMS = {
     'CONTRACT': (I + 'tezos.py', 'ContractInstruction'), 'SELF': (I + 'tezos.py', 'SelfInstruction'),
     'TRANSFER_TOKENS': (I + 'tezos.py', 'TransferTokensInstruction'), 'SET_DELEGATE': (I + 'tezos.py', 'SetDelegateInstruction'),
     'EMIT': (I + 'tezos.py', 'EmitInstruction'),
+    # phase B (first half)
+    'PACK': (I + 'generic.py', 'PackInstruction'),
 }
 
 # module-level helper functions the instruction classes call: digest key -> (file, function)
@@ -115,6 +117,10 @@ METHODS = {
     'OperationType.transaction': ('michelson/types/operation.py', 'OperationType', 'transaction'),
     'OperationType.delegation': ('michelson/types/operation.py', 'OperationType', 'delegation'),
     'OperationType.event': ('michelson/types/operation.py', 'OperationType', 'event'),
+    # phase B: what PACK calls (forge_micheline itself is property C05's mirror)
+    'MichelsonType.pack': ('michelson/types/base.py', 'MichelsonType', 'pack'),
+    'PairType.to_micheline_value': ('michelson/types/pair.py', 'PairType', 'to_micheline_value'),
+    'MapType.to_micheline_value': ('michelson/types/map.py', 'MapType', 'to_micheline_value'),
 }
 
 TYPE_PRIMS = {  # runtime class -> prim, re-read from the class keyword `prim=` below
@@ -1728,6 +1734,46 @@ def delegation(cls, source, delegate=None):
 def event(cls, source, event_type, payload, tag):
     content = {'kind': 'event', 'source': source, 'event_type': event_type.as_micheline_expr(), 'payload': payload, 'tag': tag}
     return cls(content, ty=event_type)
+''',
+    # ---- phase B (first half)
+    'PACK': '''
+@classmethod
+def execute(cls, stack, stdout, context):
+    a = stack.pop1()
+    res = BytesType.from_value(a.pack())
+    stack.push(res)
+    return cls(stack_items_added=1)
+''',
+    'MichelsonType.pack': '''
+def pack(self, legacy=False):
+    assert self.is_packable()
+    data = self.forge(mode='legacy_optimized' if legacy else 'optimized')
+    return b'\\x05' + data
+''',
+    'PairType.to_micheline_value': '''
+def to_micheline_value(self, mode='readable', lazy_diff=False):
+    if mode == 'legacy_optimized':
+        items = self.items
+    else:
+        items = list(self.iter_comb())
+    args = [arg.to_micheline_value(mode=mode, lazy_diff=lazy_diff) for arg in items]
+    if mode in ['readable', 'legacy_optimized']:
+        return {'prim': 'Pair', 'args': args}
+    elif mode == 'optimized':
+        if len(args) == 2:
+            return {'prim': 'Pair', 'args': args}
+        elif len(args) == 3:
+            return {'prim': 'Pair', 'args': [args[0], {'prim': 'Pair', 'args': args[1:]}]}
+        elif len(args) >= 4:
+            return args
+        else:
+            raise AssertionError(f'unexpected number of args {len(args)}')
+    else:
+        raise AssertionError(f'unsupported mode {mode}')
+''',
+    'MapType.to_micheline_value': '''
+def to_micheline_value(self, mode='readable', lazy_diff=False):
+    return [{'prim': 'Elt', 'args': [x.to_micheline_value(mode=mode, lazy_diff=lazy_diff) for x in elt]} for elt in self]
 ''',
 }
 
